@@ -69,6 +69,18 @@ def gen(rng, tier):
             case["again"] = gen_dm.make_frame(rng)
             case["kind"] = kind + "/looked-at-later"
         cases.append(case)
+    # explicit levels= on an ORDERED categorical whose declared order is another one: levels= is the order asked for
+    for _ in range(200 if tier == "thorough" else 20):
+        fr = gen_dm.make_frame(rng)
+        olv = gen_dm.frame_levels(fr, "o")
+        perm = olv[:]
+        while perm == olv and len(olv) > 1:
+            rng.shuffle(perm)
+        call, coding = rng.choice([("C(o, levels=olv)", "treatment"), ("T(o, levels=olv)", "treatment"), ("S(o, levels=olv)", "sum"),
+                                   ("C(o, Sum, levels=olv)", "sum")])
+        shape = rng.choice(["{a}", "0 + {a}", "x + {a}", "0 + {a} + x", "{a} + (1 | g)"])
+        cases.append({"formula": "y ~ " + shape.format(a=call), "frame": fr, "na": "drop", "kind": "levels-on-ordered",
+                      "extra": {"olv": perm}, "olv": perm, "atom": call, "coding": coding, "full": shape.startswith("0 + {a}")})
     fixed = ["y ~ f:g", "y ~ g:f", "y ~ 0 + f:g:h", "y ~ x:f", "y ~ f:x", "y ~ 0 + h:x:f", "y ~ f/g", "y ~ 0 + (f + g)*h",
              "y ~ (0 + f | g + h) + (1 | g)", "y ~ (x | g:h)", "y ~ C(k):o", "y ~ o + c", "f ~ x", "y ~ (f | C(k))"]
     for f in fixed:
@@ -123,6 +135,26 @@ def _oracle(c):
                 pos = [lv.index(g) if g in lv else -1 for g in got]
                 if -1 in pos or pos != sorted(pos) or len(set(pos)) != len(pos) or len(got) < len(lv) - 1:
                     return f"{c['formula']!r}: levels of {name} are {got}, expected order {lv}"
+    if c.get("olv") and d.common is not None and c["atom"] in d.common.terms:
+        t = d.common.terms[c["atom"]]
+        got = [re.fullmatch(r".*\[([^\[\]]*)\]", str(l)).group(1) for l in t.labels]
+        olv = [str(x) for x in c["olv"]]
+        if c["full"]:
+            want = olv if c["coding"] == "treatment" else ["mean"] + olv[:-1]
+        else:
+            want = olv[1:] if c["coding"] == "treatment" else olv[:-1]
+        if got != want:
+            return (f"{c['formula']!r} with levels={olv} on an ordered categorical declared {D.levels_of(df, 'o')}: columns "
+                    f"{got}, the order asked for gives {want}")
+        M = np.asarray(d.common[c["atom"]], dtype=float)
+        vals = [str(v) for v in df["o"].tolist()]
+        for j, l in enumerate(got):
+            if l == "mean":
+                continue
+            omit = olv[-1]
+            wantcol = np.array([1.0 if v == l else (-1.0 if (c["coding"] == "sum" and v == omit) else 0.0) for v in vals])
+            if not np.array_equal(M[:, j], wantcol):
+                return f"{c['formula']!r} levels={olv}: the column labelled {l!r} is not the {c['coding']} column of that level"
     if d.group is not None:
         for name, t in d.group.terms.items():
             err = D.check_labels_columns([str(x) for x in t.labels], d.group[name], df,
